@@ -358,7 +358,22 @@ func TestSafety(t *testing.T) {
 		v := &verdict{labels: map[string]bool{}}
 		nops := rapid.IntRange(0, 6).Draw(t, "tableOps")
 		for i := 0; i < nops; i++ {
-			switch rapid.IntRange(0, 5).Draw(t, "op") {
+			switch rapid.IntRange(0, 6).Draw(t, "op") {
+			case 6:
+				// the package's general reset functions concern level and flags; the path tables are not theirs
+				// (the flags are set again below)
+				switch rapid.IntRange(0, 2).Draw(t, "whichReset") {
+				case 0:
+					slog.Reset()
+					hist = append(hist, "Reset()")
+				case 1:
+					slog.ResetFlags()
+					hist = append(hist, "ResetFlags()")
+				default:
+					slog.ResetLevel()
+					hist = append(hist, "ResetLevel()")
+				}
+				v.labels["general-reset-before-query"] = true
 			case 0, 1, 2:
 				var m mapping
 				switch rapid.IntRange(0, 3).Draw(t, "prefixKind") {
@@ -429,7 +444,7 @@ func TestSafety(t *testing.T) {
 		if flagRe {
 			flags |= slog.Lprivacypathregexp
 		}
-		vlib.SetFlagsVia(rapid.SampledFrom([]int{0, 0, 1, 2, 3}).Draw(t, "flagsHow"), flags, slog.Lprivacypath|slog.Lprivacypathregexp|slog.Lcaller)
+		vlib.SetFlagsVia(rapid.SampledFrom([]int{0, 0, 1, 2, 3, 4}).Draw(t, "flagsHow"), flags, slog.Lprivacypath|slog.Lprivacypathregexp|slog.Lcaller)
 		h := strings.Join(hist, "; ") + fmt.Sprintf(" flags{privacypath=%v regexp=%v}", flagPath, flagRe)
 		npaths := rapid.IntRange(1, 4).Draw(t, "npaths")
 		var paths []string
